@@ -48,7 +48,6 @@ CHECKS = {
     "C04": vsim("TestVerif_C04", ["log-matching", "leader-append-only"],
         "cases = generated schedules (profiles repl/elect); non-trivial: some node truncated >=1 entry, or >=2 leaders with >=3 entries committed; distinct by trace hash",
         2000, 20000),
-    "C05v": vsim("TestVerif_C05v", ["one-vote", "vote-durable", "term-monotonic"], "vsim part of C05 (dev only)", 2000, 20000),
     "C06": vsim("TestVerif_C06", ["durable-majority", "ack-durable"],
         "cases = generated schedules over configurations reached by membership changes (1..n voters, non-voters, leader demoting/removing itself) with selective delivery of acknowledgements. Oracle = durability census at EVERY instant a leader raises its commit index (hook inside Raft.setCommitIndex, on the leader's own goroutine): for every voter of the leader's latest configuration the node's directory (live one, or the crash image if it is down) is read the way a reopen would (flushed segment header counts only) and must hold the entry with the same term, or a snapshot covering it; required >= floor(v/2)+1 voters, non-voters never counted, the leader only if it is a voter. Plus wire oracle: a follower that writes a success append/install response already has every entry of that request flushed. non-trivial: a census happened while the configuration entry was uncommitted/just committed or non-voters were present; distinct by trace hash",
         2000, 20000, level="fault_enumeration"),
